@@ -228,6 +228,18 @@ def check_term_product(ctx):
     ctx.analysed(m)
     other = positional_params(m.node)[1]
     md = Defs(m.node)
+    # per-qubit phases multiply: inside a loop over the qubits of an operand, a phase read from COEFF_MAP must be folded
+    # into the running coefficient (`*=` / `x = x * ...`); a plain assignment keeps only the last clash's phase
+    for fn_ in repo.module(MOD).functions.values():
+        for loop_ in body_walk(fn_.node):
+            if not isinstance(loop_, ast.For):
+                continue
+            for st in ast.walk(loop_):
+                if isinstance(st, ast.Assign) and len(st.targets) == 1 and isinstance(st.targets[0], ast.Name) and any(isinstance(x, ast.Subscript) and dotted(x.value) == "COEFF_MAP" for x in ast.walk(st.value)):
+                    nm = st.targets[0].id
+                    selfref = any(isinstance(x, ast.Name) and x.id == nm for x in ast.walk(st.value))
+                    if not selfref:
+                        ctx.violation(R2, f"{fn_.key}:phase-accumulated", f"`{short(st)}` inside the loop over an operand's qubits overwrites `{nm}` instead of multiplying into it: with clashes on two or more qubits only the last phase survives (e.g. (X0*X1)*(Y0*Y1) gets i instead of i*i = -1)", f"{fn_.module.relpath}:{st.lineno}")
     loops = [n for n in body_walk(m.node) if isinstance(n, ast.For) and any(isinstance(c, ast.Call) and isinstance(c.func, ast.Attribute) and c.func.attr == "_multiply_by_operator" for c in ast.walk(n))]
     if len(loops) != 1:
         ctx.undecided(R2, m.key + ":loop", f"expected one loop applying _multiply_by_operator, found {len(loops)}", m)
